@@ -30,6 +30,9 @@ def run_check(prop, tier, repo_root, quiet=False):
         mod = importlib.import_module(f"gv.props.{prop.lower()}")
         ctx = Ctx(prop, repo, tier)
         mod.check(ctx)
+        for e in ctx.soft_deferred:
+            print(f"NOT-DECIDED property={prop} rule={e.rule} (shared mechanism) at {e.where}: {e.reason}")
+            ctx.not_decided.append(f"{e.rule} (shared mechanism, owned by another property) could not be decided on this tree: {e.reason[:160]}")
         if ctx.deferred:
             # rules that were undecidable on this tree: shown, and decisive (exit 2) unless some rule found a violation
             for e in ctx.deferred[1:]:
